@@ -29,8 +29,8 @@ TOL = 1e-11
 
 def budget(tier):
     if tier == "quick":
-        return dict(max_examples=400, workers=4, time_s=170, min_cases=100)
-    return dict(max_examples=20000, workers=16, time_s=1200, min_cases=200)
+        return dict(max_examples=600, workers=8, time_s=170, min_cases=150)
+    return dict(max_examples=20000, workers=16, time_s=1200, min_cases=300)
 
 
 @st.composite
